@@ -57,6 +57,23 @@ func newRefusedPort() (*refusedPort, error) {
 	return &refusedPort{fd: fd, Port: sa.(*syscall.SockaddrInet4).Port}, nil
 }
 func (r *refusedPort) Addr() string { return fmt.Sprintf("127.0.0.1:%d", r.Port) }
+// Up makes the reserved port accept (and immediately close) connections from now on.
+func (r *refusedPort) Up() error {
+	if err := syscall.Listen(r.fd, 64); err != nil {
+		return err
+	}
+	fd := r.fd
+	go func() {
+		for {
+			nfd, _, err := syscall.Accept(fd)
+			if err != nil {
+				return
+			}
+			syscall.Close(nfd)
+		}
+	}()
+	return nil
+}
 func (r *refusedPort) Close() {
 	if r.fd >= 0 {
 		syscall.Close(r.fd)
@@ -130,6 +147,10 @@ var windowScripts = map[int][]any{
 	// F<n>: n connections at once, all selecting the upstream before any of their dials has failed
 	5: {"F3", "s", 150, "s", 200, "s", 100, "s"},
 	6: {"f", "F3", "s", 200, "s", 160, "s"},
+	// with active checks as well (interval 40 ms): the peer refuses, a dial failure is counted, the active check
+	// sees it down; "u": the peer comes up and the active check sees that INSIDE the failure window; the failure
+	// must stay remembered until fail_duration has passed, and the counter must not go below zero afterwards
+	7: {"f", 120, "u", 160, "s", 100, "s", 450, "s", 100, "s"},
 }
 
 func runHealth(sc healthScen, idx int) (map[string]any, error) {
@@ -159,9 +180,13 @@ func runHealth(sc healthScen, idx int) (map[string]any, error) {
 			return nil, err
 		}
 		defer rp.Close()
+		hc := map[string]any{"passive": map[string]any{"fail_duration": int64(ms(sc.F)), "max_fails": sc.M}}
+		if sc.Script == 7 {
+			hc["active"] = map[string]any{"interval": int64(ms(40)), "timeout": int64(ms(300))}
+		}
 		h, done, err := provisionProxy(map[string]any{
 			"upstreams":     []map[string]any{{"dial": []string{rp.Addr()}}},
-			"health_checks": map[string]any{"passive": map[string]any{"fail_duration": int64(ms(sc.F)), "max_fails": sc.M}},
+			"health_checks": hc,
 		})
 		if err != nil {
 			return nil, err
@@ -175,6 +200,10 @@ func runHealth(sc healthScen, idx int) (map[string]any, error) {
 				if v == "f" {
 					n++
 					h.Handle(dummyConn(n), nil)
+				} else if v == "u" {
+					if err := rp.Up(); err != nil {
+						return nil, err
+					}
 				} else if v[0] == 'F' {
 					var wg sync.WaitGroup
 					start := make(chan struct{})
